@@ -54,3 +54,6 @@ SPEC['rule'] += (' Added after the seeded-change rounds: ' +
     'Oracle-only scenarios run against the real broker in serial mode (one at a time, no model): the same session id polled again while the first poll is answered / unanswered; two idle polls under one id; a proxy that never answers while a spare poll waits (the offer must not be handed out twice); 300 waiting proxies of one NAT class; the same id re-polled with another NAT type; every spelling of the NAT type; sibling fingerprints of 32 bytes that share their first 20 bytes.')
 
 SPEC['thorough_passes'] = 3  # the thorough tier runs the whole harness under this many consecutive seeds
+
+SPEC['rule'] += (' ' +
+    "Added after round four: the bridge list is reloaded between a client's fingerprint check and the hand-over of its offer (forced with the matching lock): no poll may get the offer with another bridge's relay URL.")
